@@ -86,6 +86,25 @@ def pyGet? (l : List α) (i : Int) : Option α :=
 def pyModGet? (l : List α) (i : Int) : Option α :=
   if l.isEmpty then none else l[(Int.fmod i l.length).toNat]?
 
+/-- Result of looking up item `pos + j` of a Pslide segment. -/
+inductive Look (α : Type) where
+  | item (x : α)
+  | raise                   -- IndexError
+  | stopAll                 -- without wrapping: past the end, the whole pattern returns
+
+/-- `lst[bi.mod(pos + j, size)]` when wrapping; otherwise `lst[pos + j]` if `pos + j < size`
+    (a negative index counts from the end as in Python) and the end of the pattern if not. -/
+def slideLook {α : Type} (l : List α) (wrap : Bool) (pos : Int) (j : Nat) : Look α :=
+  if wrap then
+    match l[(scModInt (pos + j) l.length).toNat]? with
+    | some x => .item x
+    | none => .raise
+  else if pos + j < l.length then
+    match pyGet? l (pos + j) with
+    | some x => .item x
+    | none => .raise
+  else .stopAll
+
 /-- Start offsets and sizes of the top-level items of a `Place` list. -/
 def segments : Nat → List Nat → List (Nat × Nat)
   | _, [] => []
@@ -484,15 +503,10 @@ def step : St → Step
     else .done
   | .slide l ls ss pos wrap r cur (.e lv j) =>
     if j < lv then
-      if wrap then
-        match l[(scModInt (pos + j) l.length).toNat]? with
-        | some p => .tau (.slide l ls ss pos wrap r (initE p) (.r lv j))
-        | none => .err
-      else if pos + j < l.length then
-        match pyGet? l (pos + j) with
-        | some p => .tau (.slide l ls ss pos wrap r (initE p) (.r lv j))
-        | none => .err
-      else .done
+      match slideLook l wrap pos j with
+      | .item p => .tau (.slide l ls ss pos wrap r (initE p) (.r lv j))
+      | .raise => .err
+      | .stopAll => .done
     else .tau (.slide l ls ss pos wrap r cur .s)
   | .slide l ls ss pos wrap r cur (.r lv j) =>
     match step cur with
